@@ -289,9 +289,10 @@ func deepInterface(args []string) error {
 	}
 	it := pj.Iter()
 	if _, err := it.MarshalJSON(); err != nil {
-		return err
+		rep.Info["marshal"] = "error: " + err.Error() // an error is not a crash (what the text must be is C10's business)
+	} else {
+		rep.Info["marshal"] = "ok"
 	}
-	rep.Info["marshal"] = "ok"
 	it = pj.Iter()
 	_, err = it.Interface() // dies with "fatal error: stack overflow" if the recursion is too deep
 	rep.Info["interface"] = fmt.Sprint(err)
